@@ -4,6 +4,8 @@ import (
 	"bytes"
 	"fmt"
 	"io"
+	"os"
+	"path/filepath"
 	"sort"
 	"strings"
 
@@ -62,11 +64,21 @@ func c04Case(c *core.Ctx) *core.Result {
 	if c.Case%3 != 0 {
 		nEdits = r.Range(1, 8)
 	}
+	tocEdit := false
 	kinds := []document.HeaderFooterType{document.HeaderFooterTypeDefault, document.HeaderFooterTypeFirst, document.HeaderFooterTypeEven}
 	for i := 0; i < nEdits; i++ {
 		var name string
 		cg := core.Catch(func() {
-			switch r.Intn(9) {
+			switch r.Intn(11) {
+			case 9:
+				name = "UpdateTOC"
+				d.UpdateTOC() // an error ("no table of contents") is a legitimate answer
+				touched["word/styles.xml"] = true
+			case 10:
+				name = "AutoGenerateTOC"
+				tocEdit = true
+				d.AutoGenerateTOC(document.DefaultTOCConfig())
+				touched["word/styles.xml"] = true
 			case 0, 1:
 				name = "AddParagraph"
 				d.AddParagraph("⟦new⟧ " + gen.SafeString(r))
@@ -113,7 +125,18 @@ func c04Case(c *core.Ctx) *core.Result {
 		edits = append(edits, name)
 	}
 	var out []byte
-	if cg := core.Catch(func() { out, err = d.ToBytes() }); cg != nil {
+	viaFile := r.Bool() // both writers are "saving"
+	if cg := core.Catch(func() {
+		if viaFile {
+			path := filepath.Join(c.WorkDir, fmt.Sprintf("c04-%d.docx", c.Case))
+			defer os.Remove(path)
+			if err = d.Save(path); err == nil {
+				out, err = os.ReadFile(path)
+			}
+			return
+		}
+		out, err = d.ToBytes()
+	}); cg != nil {
 		res.Add("save/"+cg.Key(), "saving the opened package panicked: "+cg.Msg, cg.Stack)
 		return res
 	}
@@ -214,6 +237,11 @@ func c04Case(c *core.Ctx) *core.Result {
 			}
 		} else if nEdits == 0 && qtext != ptext {
 			lost = "differs"
+		} else if tocEdit {
+			// a generated table of contents goes in front of the body: the opened text stays one contiguous stretch
+			if !strings.Contains(qtext, ptext) {
+				lost = "is-not-contiguous-after-insert-at-either-end-edits"
+			}
 		} else if !strings.HasPrefix(qtext, ptext) {
 			lost = "is-not-a-prefix-after-append-only-edits"
 		}
